@@ -243,7 +243,9 @@ Call(e) ==
         \* the expiry of a tombstone may be unreadable (GetExpiry of a tombstone may report "missing"): then it is
         \* only observed on feed events
         expHidden == IsTomb(postObs) /\ no[c][k].exp.cls = "missing"
-        Norm(d) == IF expHidden THEN [NoJson(d) EXCEPT !.exp = "0"] ELSE NoJson(d)
+        \* ... and a call that keeps the expiry of such a tombstone keeps a value the specification never saw
+        preHidden == IsTomb(pre) /\ obs[c][k].exp.cls = "missing" /\ e.a.pres
+        Norm(d) == IF expHidden \/ preHidden THEN [NoJson(d) EXCEPT !.exp = "0"] ELSE NoJson(d)
         matches == {o \in outs : o.any \/ (e.r.cls \in o.cls /\ retOK(o) /\ Norm(o.doc) = Norm(postObs))}
         matched == matches # {}
         ch   == IF matched THEN CHOOSE o \in matches : TRUE ELSE CHOOSE o \in outs : TRUE
@@ -253,7 +255,8 @@ Call(e) ==
         \* the JSON flag: the specification's if the step matched, else what the observers say
         js   == IF matched /\ ~wild THEN ch.doc.json
                 ELSE IF Len(live) = 1 THEN live[1].json ELSE DumpJson(nd[c], k, pre.json)
-        post == IF matched /\ ~wild THEN ch.doc ELSE [postObs EXCEPT !.json = js]
+        post == IF matched /\ ~wild THEN (IF preHidden THEN [ch.doc EXCEPT !.exp = postObs.exp] ELSE ch.doc)
+                ELSE [postObs EXCEPT !.json = js]
         props == PropsOf(e, pre, postObs)
         newDocs == IF isPurge
                    THEN [c2 \in Colls |-> [k2 \in Keys |-> DocOf(no[c2][k2], docs[c2][k2].json)]]
